@@ -80,6 +80,26 @@ type ndSite struct {
 	Ins  ssa.Instruction
 }
 
+// in-place methods of *big.Int: calling one on a package-level value changes it for the rest of the process
+var bigIntMutators = map[string]bool{"Add": true, "Sub": true, "Mul": true, "Div": true, "Mod": true, "Quo": true, "Rem": true, "Set": true, "SetUint64": true,
+	"SetInt64": true, "SetBytes": true, "SetString": true, "Exp": true, "Neg": true, "Abs": true, "Lsh": true, "Rsh": true, "And": true, "Or": true, "Xor": true, "Not": true, "Sqrt": true, "DivMod": true, "QuoRem": true}
+
+// aliasesGlobal: the value may BE a package-level object (directly, or as one alternative of a phi / multi-store cell),
+// as opposed to merely being computed from one.
+func aliasesGlobal(e *Expr) bool {
+	switch e.Op {
+	case "global":
+		return true
+	case "phi", "cell":
+		for _, a := range e.Args {
+			if a != nil && aliasesGlobal(a) {
+				return true
+			}
+		}
+	}
+	return false
+}
+
 var ndPkgs = []string{"os.", "io/ioutil.", "path/filepath.", "net.", "net/http.", "os/exec.", "syscall.", "math/rand.", "crypto/rand.", "mmap-go.", "os/user.", "os/signal."}
 
 func ndSites(c *Check, fn *ssa.Function) []ndSite {
@@ -107,6 +127,12 @@ func ndSites(c *Check, fn *ssa.Function) []ndSite {
 			case ssa.CallInstruction:
 				if f := c.P.resolveCallee(v.Common()); f != nil && !inTeleport(f) {
 					n := funcName(f)
+					if strings.HasPrefix(n, "math/big.(*Int).") && bigIntMutators[f.Name()] && len(v.Common().Args) > 0 {
+						recv := x.E(v.Common().Args[0])
+						if aliasesGlobal(recv) {
+							out = append(out, ndSite{fn, "global-mutation", n + " on " + trunc(recv.String()), v.Pos(), v})
+						}
+					}
 					switch {
 					case n == "time.Now" || n == "time.Since" || n == "time.Until":
 						out = append(out, ndSite{fn, "wall-clock", n, v.Pos(), v})
